@@ -458,6 +458,11 @@ pub fn apply_faults(base: &[u8], faults: &[LinkFault]) -> Vec<u8> {
                 m = out;
             }
             LinkFault::Replace(b) => m = b.clone(),
+            LinkFault::ReplaceRange(at, len, bytes) => {
+                let at = (*at as usize).min(m.len());
+                let end = (at + *len as usize).min(m.len());
+                m.splice(at..end, bytes.iter().copied());
+            }
             LinkFault::Repeat { prefix, unit, times, suffix } => {
                 let mut out = Vec::with_capacity(prefix.len() + unit.len() * (*times as usize) + suffix.len());
                 out.extend_from_slice(prefix);
@@ -537,6 +542,72 @@ fn cbor_length_headers(b: &[u8]) -> Vec<(usize, u8)> {
     out
 }
 
+/// (start, end) of every well-formed data item of a CBOR message, nested ones included, in
+/// document order; stops at the first malformed or indefinite-length header
+fn cbor_items(b: &[u8]) -> Vec<(usize, usize)> {
+    fn item(b: &[u8], i: usize, depth: u32, out: &mut Vec<(usize, usize)>) -> Option<usize> {
+        if i >= b.len() || depth > 64 {
+            return None;
+        }
+        let major = b[i] >> 5;
+        let info = b[i] & 0x1f;
+        let (arg, hl): (u64, usize) = match info {
+            0..=23 => (u64::from(info), 1),
+            24 if i + 1 < b.len() => (u64::from(b[i + 1]), 2),
+            25 if i + 2 < b.len() => (u64::from(u16::from_be_bytes([b[i + 1], b[i + 2]])), 3),
+            26 if i + 4 < b.len() => (u64::from(u32::from_be_bytes(b[i + 1..i + 5].try_into().unwrap())), 5),
+            27 if i + 8 < b.len() => (u64::from_be_bytes(b[i + 1..i + 9].try_into().unwrap()), 9),
+            _ => return None,
+        };
+        let slot = out.len();
+        out.push((i, i));
+        let mut j = i + hl;
+        match major {
+            2 | 3 => {
+                j = j.checked_add(usize::try_from(arg).ok()?)?;
+                if j > b.len() {
+                    return None;
+                }
+            }
+            4 => {
+                for _ in 0..arg {
+                    j = item(b, j, depth + 1, out)?;
+                }
+            }
+            5 => {
+                for _ in 0..arg.checked_mul(2)? {
+                    j = item(b, j, depth + 1, out)?;
+                }
+            }
+            6 => j = item(b, j, depth + 1, out)?,
+            _ => {}
+        }
+        out[slot].1 = j;
+        Some(j)
+    }
+    let mut out = Vec::new();
+    let mut i = 0;
+    while i < b.len() {
+        match item(b, i, 0, &mut out) {
+            Some(j) => i = j,
+            None => break,
+        }
+    }
+    out.retain(|(a, e)| e > a);
+    out
+}
+
+/// items of other types and sizes that a damaged or hostile peer may put where a given item is expected
+fn cbor_replacements() -> Vec<Vec<u8>> {
+    let mut v: Vec<Vec<u8>> = vec![vec![0xf5], vec![0xf4], vec![0xf6], vec![0xf7], vec![0x00], vec![0x20], vec![0x18, 0xff], vec![0x3b, 0xff, 0xff, 0xff, 0xff, 0xff, 0xff, 0xff, 0xff], vec![0x40], vec![0x41, 0x00], vec![0x60], vec![0x61, 0x61], vec![0x80], vec![0x81, 0x00], vec![0xa0], vec![0xa1, 0x00, 0x00], vec![0xc0, 0x00], vec![0xfb, 0x7f, 0xf0, 0, 0, 0, 0, 0, 0], vec![0xf9, 0x7e, 0x00]];
+    for n in [31u8, 33, 64] {
+        let mut bs = vec![0x58, n];
+        bs.extend(std::iter::repeat_n(0x11, usize::from(n)));
+        v.push(bs);
+    }
+    v
+}
+
 fn huge_header(major: u8, which: usize) -> Vec<u8> {
     let m = major << 5;
     match which {
@@ -578,6 +649,31 @@ fn sweep_for(decoder: &str, base: &[u8]) -> Vec<Vec<LinkFault>> {
         for (at, major) in cbor_length_headers(&body[skip..]) {
             for which in 0..5 {
                 out.push(vec![LinkFault::Splice((off + skip + at) as u32, huge_header(major, which))]);
+            }
+        }
+        // every item replaced by an item of another type or size; for small messages every pair of
+        // items too (a converter may guard each member on its own and still trip on a combination)
+        let items: Vec<(usize, usize)> = cbor_items(&body[skip..]).into_iter().map(|(a, e)| (off + skip + a, e - a)).collect();
+        let repl = cbor_replacements();
+        for (at, len) in items.iter().take(96) {
+            for w in &repl {
+                out.push(vec![LinkFault::ReplaceRange(*at as u32, *len as u32, w.clone())]);
+            }
+        }
+        if items.len() <= 24 {
+            let small: Vec<&Vec<u8>> = repl.iter().filter(|w| matches!(w.as_slice(), [0xf5] | [0xf6] | [0x00] | [0x41, 0x00] | [0x60] | [0x80]) || (w.len() == 35 && w[1] == 33)).collect();
+            for (i, (a1, l1)) in items.iter().enumerate() {
+                for (a2, l2) in items.iter().skip(i + 1) {
+                    // disjoint items only (not a container and its own content); later one first so offsets stay valid
+                    if a1 + l1 > *a2 {
+                        continue;
+                    }
+                    for w1 in &small {
+                        for w2 in &small {
+                            out.push(vec![LinkFault::ReplaceRange(*a2 as u32, *l2 as u32, (*w2).clone()), LinkFault::ReplaceRange(*a1 as u32, *l1 as u32, (*w1).clone())]);
+                        }
+                    }
+                }
             }
         }
         for depth in [64u32, 1_000, 10_000, 100_000] {
@@ -719,8 +815,20 @@ fn sweep_base(i: u64) -> (usize, usize) {
     (DECODERS.len() - 1, k % c.hid_streams.len())
 }
 
-fn gen_random_fault(r: &mut Rng, n: usize, decoder: &str) -> LinkFault {
+fn gen_random_fault(r: &mut Rng, base: &[u8], decoder: &str) -> LinkFault {
+    let n = base.len();
     let at = |r: &mut Rng| r.below(n.max(1) as u64) as u32;
+    if (decoder.starts_with("cbor:") || decoder == "bin:AuthenticatorData") && r.chance(1, 4) {
+        // (for authenticator data the walker starts at the first byte that can begin the COSE key; a miss
+        // simply yields few items)
+        let off = if decoder == "bin:AuthenticatorData" { 55.min(n) } else { 0 };
+        let items = cbor_items(&base[off..]);
+        if !items.is_empty() {
+            let (a, e) = *r.pick(&items);
+            let repl = cbor_replacements();
+            return LinkFault::ReplaceRange((off + a) as u32, (e - a) as u32, r.pick(&repl).clone());
+        }
+    }
     match r.below(8) {
         0 => LinkFault::Truncate(at(r)),
         1 => LinkFault::BitFlip(r.below((n.max(1) * 8) as u64) as u32),
@@ -741,7 +849,7 @@ impl Family for C15Family {
         FamilyInfo {
             id: "C15",
             level: "fault_enumeration",
-            rule: "link world: for every public decoder (19 receiving ends: 5 WebAuthn JSON types, 6 CTAP2 CBOR types, AuthenticatorData, Bytes, U2F request, COSE key converter, fingerprint, domain/RP-ID, origin+RP-ID, and the stateful CTAPHID ChannelHandler) valid in-flight messages are produced by the real encoders (a simulated ceremony, the real HID sender, serde of real request values). Systematic single-fault sweep per message: truncation at every offset, a flip of every bit of the first 256 bytes, extension, at every CBOR header of a length-bearing item a rewrite of the declared length to 2^16-1, 2^16, 2^32-1, 2^40, 2^63-1, JSON numbers rewritten to huge values, nesting 64-100000 deep, U2F P1/INS/length fields over their whole range, HID packets resized to every length 0-130 with BCNT/seq rewritten, dropped, duplicated, swapped, and a 301-packet continuation stream; then seeded multi-fault combinations. Each case runs in a crash-isolated worker with a counting allocator and a per-case watchdog. Non-trivial = every damaged case (the undamaged one is the control); distinct = distinct (decoder, damaged bytes).",
+            rule: "link world: for every public decoder (19 receiving ends: 5 WebAuthn JSON types, 6 CTAP2 CBOR types, AuthenticatorData, Bytes, U2F request, COSE key converter, fingerprint, domain/RP-ID, origin+RP-ID, and the stateful CTAPHID ChannelHandler) valid in-flight messages are produced by the real encoders (a simulated ceremony, the real HID sender, serde of real request values). Systematic single-fault sweep per message: truncation at every offset, a flip of every bit of the first 256 bytes, extension, at every CBOR header of a length-bearing item a rewrite of the declared length to 2^16-1, 2^16, 2^32-1, 2^40, 2^63-1, every CBOR data item (nested ones included) replaced by each of 22 items of other types and sizes (booleans, null, integers, empty / 1 / 31 / 33 / 64-byte strings, empty containers, tag, floats) and, for messages of up to 24 items, every pair of disjoint items replaced together, JSON numbers rewritten to huge values, nesting 64-100000 deep, U2F P1/INS/length fields over their whole range, HID packets resized to every length 0-130 with BCNT/seq rewritten, dropped, duplicated, swapped, and a 301-packet continuation stream; then seeded multi-fault combinations. Each case runs in a crash-isolated worker with a counting allocator and a per-case watchdog. Non-trivial = every damaged case (the undamaged one is the control); distinct = distinct (decoder, damaged bytes).",
             assumptions: &["bounds: a single allocation above 256 x input length + 2 MiB, peak live heap above 512 x input length + 16 MiB (serde's own cautious pre-allocation of at most 1 MiB per sequence in progress - one per nesting level and per sibling field being filled - is deliberately inside the bound), or more than 0.25 s + 1 us per input byte of CPU time for one case (measured per case on the decoding thread; a watchdog kills a worker after 10 s of CPU; honest decodes take microseconds to milliseconds) count as out of proportion", "the watchdog is the only measured (not computed) quantity in the whole simulator"],
             real: &["serde Deserialize impls of all passkey-types WebAuthn/CTAP2 messages", "AuthenticatorData::from_slice", "Bytes::try_from(&str)", "u2f::Request::try_from", "public_key_der_from_cose_key", "valid_fingerprint", "public_suffix::effective_tld_plus_one", "RpIdVerifier::{is_valid_rp_id,assert_domain}", "hid::ChannelHandler::handle_packet", "the encoders that produced the corpus"],
             stubs: &["the link (fault injector)", "counting allocator", "watchdog", "worker isolation"],
@@ -786,9 +894,8 @@ impl Family for C15Family {
                 LinkScn { decoder: "hid".into(), base: b as u32, faults: vec![], hid_faults }
             } else {
                 let b = r.usize(c.msgs[d].len());
-                let n = c.msgs[d][b].len();
                 let k = r.range(2, 4);
-                let faults = (0..k).map(|_| gen_random_fault(&mut r, n, DECODERS[d])).collect();
+                let faults = (0..k).map(|_| gen_random_fault(&mut r, &c.msgs[d][b], DECODERS[d])).collect();
                 LinkScn { decoder: DECODERS[d].into(), base: b as u32, faults, hid_faults: vec![] }
             }
         };
@@ -877,6 +984,7 @@ impl Family for C15Family {
                     LinkFault::Splice(..) => "length_or_token_rewrite",
                     LinkFault::Nest { .. } => "deep_nesting",
                     LinkFault::Replace(_) => "replace",
+                    LinkFault::ReplaceRange(..) => "item_of_other_type_or_size",
                     LinkFault::Repeat { .. } => "large_repetitive_input",
                 },
                 1,
